@@ -184,9 +184,23 @@ class DataPath:
 
         obj = cls.from_part_specs(*spec_val)
 
+        MODIFIERS = (
+            "dtype",
+            "length",
+            "map_keys",
+            "map_values",
+            "first",
+            "last",
+            "single",
+            "all",
+            "any",
+        )
         for i in spec_key_split[1:]:
             i = DATUM_TYPE_MULTI_TYPE_LOOKUP.get(i, i)
             try:
+                if i not in MODIFIERS:
+                    # other attributes of `DataPath` are not modifiers
+                    raise AttributeError(i)
                 obj = getattr(obj, i)()
             except AttributeError:
                 raise MalformedDataPathSpec(
